@@ -96,8 +96,21 @@ def g_ff(rng, angular=False):
     sizes = {"a": rng.randint(1, 2), "t": rng.randint(3, 5)}
     f = gens.rand_da(rng, sizes, dims=["a", "t"], lo=0, hi=7, den=1, shuffle=False)
     if angular:
-        f = f * 45.0
+        f = (f - 2) * 67.5        # directions on a 67.5 degree grid, some outside [0, 360)
     return [f, f]
+
+
+def g_iso(rng):
+    sizes = {"a": rng.randint(2, 3), "b": rng.randint(2, 3)}
+    f = gens.rand_da(rng, sizes, lo=0, hi=3, den=1, nan_p=0.1)
+    o = gens.rand_da(rng, sizes, lo=0, hi=4, den=2, nan_p=0.1)
+    w = gens.rand_da(rng, sizes, lo=1, hi=3, den=1)
+    return [f, o, w]
+
+
+def iso_result(r):
+    """isotonic_fit returns a dict: keep the label-free numeric parts as a Dataset"""
+    return xr.Dataset({k: xr.DataArray(np.asarray(r[k], dtype=float), dims=[k + "_i"]) for k in ("fcst_sorted", "fcst_counts", "regression_values")})
 
 
 def recipes():
@@ -147,6 +160,10 @@ def recipes():
         Recipe("adjust_fcst_for_crps", g_cdf, lambda x, **k: P.adjust_fcst_for_crps(x[0], "threshold", x[1]), fixed=["threshold"], dims_kw=False, lazy=False),
         Recipe("fss_2d", g_fss, lambda x, **k: fss_2d(x[0], x[1], event_threshold=2, window_size=(2, 2), spatial_dims=("x", "y"), **k), fixed=["x", "y"], dask=False, lazy=False),
         Recipe("risk_matrix_score", g_risk, lambda x, **k: risk_matrix_score(x[0], x[1], dw, "sev", "pt", **k), lazy=False, weights=True, specific=["sev"]),
+        Recipe("isotonic_fit_weighted", g_iso, lambda x, **k: iso_result(Sc.processing.isoreg_impl.isotonic_fit(x[0], x[1], weight=x[2])),
+               dims_kw=False, dask=False, lazy=False),
+        Recipe("isotonic_fit_median", g_iso, lambda x, **k: iso_result(Sc.processing.isoreg_impl.isotonic_fit(x[0], x[1], functional="quantile", quantile_level=0.5)),
+               dims_kw=False, dask=False, lazy=False),
         Recipe("flip_flop_index", g_ff, lambda x, **k: C.flip_flop_index(x[0], "t"), fixed=["t"], dims_kw=False),
         Recipe("flip_flop_index_angular", lambda rng: g_ff(rng, True), lambda x, **k: C.flip_flop_index(x[0], "t", is_angular=True), fixed=["t"], dims_kw=False, lazy=False),
     ]
